@@ -659,6 +659,14 @@ func (vc *VC) envFor(fr *Frame, st *State) *Env {
 	for i, a := range fr.pendingArgs {
 		e.hash[fmt.Sprintf("arg%d", i)] = a
 	}
+	if fr.lastRes.Tup != nil {
+		for i, r := range fr.lastRes.Tup {
+			e.hash[fmt.Sprintf("ret%d", i)] = r
+		}
+	} else if fr.lastRes.S != "" || fr.lastRes.A != nil {
+		e.hash["ret"] = fr.lastRes
+		e.hash["ret0"] = fr.lastRes
+	}
 	return e
 }
 
